@@ -123,6 +123,9 @@ profile_by_name(const std::string &name, const std::string &prop, int tier)
                 p.max_len = 600;
                 p.allow_full = false;
                 p.big_lens = false;
+        } else if (name == "scrub_entry") { // exploration aid for C13: residues after direct / synchronous-burst calls
+                p.oracles = OR_FIFO | OR_SCRUB;
+                p.max_len = 600;
         } else if (name == "keyprep") { // C11
                 p.oracles = OR_FIFO | OR_REF;
                 p.max_ops = 60;
